@@ -14,9 +14,96 @@ void harness(void) {
 	g18_parse_fail = nondet_bool();
 	int res = generateNextTlv(nondet_ptr(), &out);
 	if (res == KSI_OK) REACH("ok");
-	if (res == KSI_OK && out != NULL && out->tag == 0x0704) REACH("signature record handed out");
-	if (res == KSI_OK && out == NULL) REACH("end of input");
+	if (res == KSI_OK && g18_parse_calls == 1 && g18_parse_len >= 4 && g18_free_calls == 1) REACH("record handed out, previous one released");
+	if (res == KSI_OK && g18_parse_calls == 0) REACH("end of input");
 	if (res == KSI_INVALID_FORMAT) REACH("rejected");
 	if (res == KSI_OUT_OF_MEMORY) REACH("out of memory");
+}
+#endif
+
+#ifdef H_parse
+/* KSI_PublicationsFile_parse orchestration.  Bounded: file of at most 8 + PARSE_BODY octets (at most PARSE_BODY/2 records).
+ * Real KSI_PublicationsFile_parse, generateNextTlv, KSI_FTLV_memRead (fast_tlv.c), KSI_PublicationsFile_new/_free.
+ * The template engine is a harness stub that pulls the records through the REAL generator and may reject the record
+ * sequence for schema reasons (the engine itself is job C10.engine, the publications-file table is C10.tables_pubfile:
+ * 0x0704 mandatory - the stub therefore reports OK only if a signature record was generated). */
+#include "spec/pubfile.h"
+#ifndef PARSE_BODY
+#define PARSE_BODY 10
+#endif
+#include "fast_tlv.c"
+void KSI_PublicationsHeader_free(KSI_PublicationsHeader *t) { }
+void KSI_CertificateRecordList_free(KSI_LIST(KSI_CertificateRecord) *l) { }
+void KSI_List_free(KSI_List *l) { }
+int KSI_List_new(void (*obj_free)(void *), KSI_List **list) { return KSI_OUT_OF_MEMORY; }
+static unsigned g_sig_free_calls;
+void KSI_PKISignature_free(KSI_PKISignature *s) { if (s != NULL) g_sig_free_calls++; }
+#include "publicationsfile.c"
+
+static unsigned g_engine_calls, g_records, g_sig_records;
+static char g_sig_obj;
+int KSI_TlvTemplate_extractGenerator(KSI_CTX *ctx, void *payload, void *generatorCtx, const KSI_TlvTemplate *tmpl, int (*generator)(void *, KSI_TLV **)) {
+	KSI_PublicationsFile *pf = payload; KSI_TLV *tlv = NULL; int res; unsigned k;
+	g_engine_calls++;
+	__CPROVER_assert(tmpl == KSI_PublicationsFile_template, "parse: the publications-file template is used");
+	__CPROVER_assert(generator == (int (*)(void *, KSI_TLV **))generateNextTlv, "parse: records come from generateNextTlv");
+	__CPROVER_assert(pf != NULL && pf->ctx == ctx && pf->signedDataLength == SPEC_PUBFILE_MAGIC_LEN && pf->raw == NULL, "parse: fresh store object, magic already accounted for");
+	for (k = 0; k <= PARSE_BODY / 2; k++) {
+		res = generateNextTlv(generatorCtx, &tlv);
+		if (res != KSI_OK) return res;
+		if (tlv == NULL) break;
+		g_records++;
+		if (tlv->tag == 0x0704) { g_sig_records++; pf->signature = (KSI_PKISignature *)&g_sig_obj; }
+		if (nondet_bool()) return KSI_INVALID_FORMAT;          /* any schema violation found by the engine */
+	}
+	__CPROVER_assert(tlv == NULL, "bound: the body holds at most PARSE_BODY/2 records");
+	if (g_sig_records == 0) return KSI_INVALID_FORMAT;         /* mandatory signature record missing */
+	return KSI_OK;
+}
+
+void harness(void) {
+	static KSI_CTX ctx_obj;
+	static KSI_PublicationsFile sentinel;
+	KSI_PublicationsFile *out = &sentinel;
+	size_t n = nondet_size(), w = nondet_size(), signed_len = 0;
+	unsigned char *raw; int res, wf;
+	__CPROVER_assume(n <= SPEC_PUBFILE_MAGIC_LEN + PARSE_BODY);          /* the stated bound */
+	raw = malloc(n);
+	__CPROVER_assume(raw != NULL);
+	g18_w = nondet_size(); g18_parse_fail = nondet_bool();
+	res = KSI_PublicationsFile_parse(&ctx_obj, raw, n, &out);
+	wf = n > 0 && spec_pubfile_container(raw, n, &signed_len);
+	__CPROVER_assert(IMPLIES(n == 0 || !spec_pubfile_has_magic(raw, n), res != KSI_OK && g_engine_calls == 0 && g18_parse_calls == 0), "parse: magic checked first - nothing is parsed without it");
+	__CPROVER_assert(IMPLIES(n > 0 && !spec_pubfile_has_magic(raw, n), res == KSI_INVALID_FORMAT), "parse: wrong magic is INVALID_FORMAT");
+	__CPROVER_assert(IMPLIES(res == KSI_OK, wf), "parse: accepted => magic, complete records, one signature record which is the last record");
+	__CPROVER_assert(IMPLIES(res != KSI_OK, out == &sentinel), "parse: output untouched on failure");
+	if (res == KSI_OK) {
+		__CPROVER_assert(out != &sentinel && out != NULL && out->signedDataLength == signed_len, "parse: signed range == everything before the signature record (8 + its offset)");
+		__CPROVER_assert(g_sig_records == 1, "parse: exactly one signature record");
+		__CPROVER_assert(out->raw != NULL && out->raw != raw && out->raw_len == n, "parse: raw is a private copy of the whole input");
+		if (w < n) __CPROVER_assert(out->raw[w] == raw[w], "parse: raw copy equals the input (witness index)");
+		__CPROVER_assert(out->ref == 1 && out->ctx == &ctx_obj, "parse: object fields");
+		REACH("accepted");
+		if (g_records >= 3) REACH("accepted with three records");
+	}
+	if (res != KSI_OK && g_sig_records == 1) REACH("rejected after the signature record");
+	if (res == KSI_INVALID_FORMAT && g_engine_calls == 0) REACH("rejected: magic");
+}
+#endif
+
+#ifdef H_verify
+#include "env/c18_pki.h"
+#include "publicationsfile.c"
+#include "contracts/publicationsfile_verify.h"
+void harness(void) {
+	static char ctx_mem[8];
+	int res;
+	g18v_get_res = nondet_int(); g18v_verify_res = nondet_int();
+	res = KSI_PublicationsFile_verify(nondet_bool() ? NULL : nondet_ptr(), nondet_bool() ? NULL : (KSI_CTX *)ctx_mem);
+	if (res == KSI_OK) REACH("trusted");
+	if (res == KSI_PUBLICATIONS_FILE_NOT_SIGNED_WITH_PKI) REACH("no signature");
+	if (res != KSI_OK && g18v_verify_calls == 1) REACH("PKI verdict propagated");
+	if (res != KSI_OK && g18v_get_calls == 1 && g18v_verify_calls == 0) REACH("no trust store");
+	if (res == KSI_INVALID_ARGUMENT && g18v_get_calls == 0) REACH("NULL file");
 }
 #endif
